@@ -14,7 +14,8 @@
      serialization with a line width depends on what follows the sub-tree in its document.
    - Output: the chunk tree of Ws/Pretty.v; character data is a KRaw chunk (the escaped text as
      written; lengths, slicing and line breaking work on the escaped text as in the code).
-   Domain as for Ws/Pretty.v: no empty and no adjacent text nodes, no namespaces but xml: attributes. *)
+   Domain as for Ws/Pretty.v: no empty and no adjacent text nodes, no namespaces but xml: attributes (namespaced
+   trees go through their qualified view, Ws/Qualified.v).  Follows the code as of e1f59b7 (_line_offset). *)
 From Delb.Base Require Import PyStr PyStrW.
 From Delb.Gen Require Import GenNames GenPretty GenWrap.
 From Delb.Tree Require Import ATree.
@@ -221,6 +222,10 @@ Fixpoint lf_node (space : bool) (st : wst) (n : node) : chunk * wst :=
   | PI t c => let '(d, st') := emit st (pi_str t c) in (KPI t c, st')
   end.
 
+(* s.rpartition("\n")[2]: what follows the last newline (all of s if there is none) *)
+Definition tail_line (s : str) : str :=
+  match rfind_nat LF s with Some i => skipn (S i) s | None => s end.
+
 (* ---- TextWrappingSerializer ---------------------------------------------------------------- *)
 Definition py_join_lines := py_join.
 Definition is_nil_str (s : str) : bool := null s.
@@ -231,7 +236,9 @@ Section Wrap.
   Variable width : Z.
   Variable req : rpath -> Z -> option Z.          (* _required_space(node at path, up_to) *)
 
-  Definition ilen (L : nat) : Z := Z.of_nat L * elen ind.
+  (* len((self._level * self.indentation).rpartition("\n")[2]): the writer counts from the last newline, which may be
+     part of the indentation (e1f59b7) *)
+  Definition ilen (L : nat) : Z := elen (tail_line (indent ind L)).
   Definition line_offset (L : nat) (st : wst) : Z := if w_off st =? 0 then 0 else w_off st - ilen L.
   Definition available (L : nat) (st : wst) : Z := Z.max 0 (width - line_offset L st).
   Definition fits (L : nat) (st : wst) (rp : rpath) : bool :=
